@@ -60,6 +60,10 @@ def cases(draw, tier):
 def compare_numeric(case, out, labels, phi_value):
   """Runs float and quantized model on the calibration input; raises Violation."""
   mspec = case['model']
+  bad = engine.must_not_execute(case, out.qbytes)
+  if bad:
+    labels.append('execution_excluded:' + ','.join(bad))
+    return False
   try:
     it_q = interp.make(out.qbytes)
   except Exception as e:  # pylint: disable=broad-except
